@@ -11,6 +11,8 @@
   CODEGEN    the real emboss_codegen_cpp.main(flags), same technique
   TOKLOC     source locations of the tokens the real tokenizer produces on the explored inputs
   MERGE      parser_types.merge_source_locations
+  SPAN       every SourceLocation(start, end) module_ir builds by hand while real inputs are parsed
+             (recording stand-in for its `parser_types`), + oracle on every location of the finished IR
 
 plus the file-system fault cases for the executables in subprocesses (`fs_cli_cases`).
 """
@@ -86,6 +88,9 @@ def classify_open(path):
         return ("u", str(e))
     except OSError as e:
         return ("o", str(e))
+    except ValueError as e:
+        # open() rejects the name itself (embedded NUL); not an OSError, not a UnicodeError
+        return ("v", str(e))
     except Exception as e:  # noqa: BLE001
         return ("x", type(e).__name__)
 
@@ -137,11 +142,11 @@ def tie_findread(chk, r, n):
         except Exception as e:  # noqa: BLE001
             want = "raised " + type(e).__name__
             # spec (property statement): a file that cannot be opened/decoded is reported, not raised
-            spec_ok = not all(k in "tou" for _, (k, _v) in probes)
+            spec_ok = not all(k in "touv" for _, (k, _v) in probes)
         line = "FINDREAD " + ("|".join("%s=%s:%s" % (base.enc(d), k, base.enc(v)) for d, (k, v) in probes) or "-")
         t.add(line, want, {"layout": {"name": name, "states": states}, "observed": want[:300],
                            "expected": "the text of the first import directory where the file can be read, or "
-                                       "(None, one detail per directory + import path); no exception for OSError/UnicodeError"},
+                                       "(None, one detail per directory + import path); no exception for OSError/ValueError (incl. UnicodeError)"},
               spec_ok)
         chk.nontrivial("findread:" + ",".join(k for _, (k, _v) in probes) + want[:8])
         if want.startswith("notfound"):
@@ -482,6 +487,192 @@ def tie_locations(chk, r, cases, n_tokens, n_merges):
         t.add("MERGE " + "/".join(base.enc_loc(x) for x in chosen), want, {"locations": [str(x) for x in chosen]}, spec_ok)
         _ = i
     return t.flush()
+
+
+# ---- module_ir's hand-built locations (round 3)
+class _RecordingParserTypes:
+    """Stands in for the module `parser_types` inside `module_ir` while a file is parsed: every
+    `SourceLocation(...)` and `merge_source_locations(...)` call module_ir makes is recorded
+    with its arguments and its result (or the AssertionError); everything else is the real module."""
+
+    def __init__(self, real, log):
+        self._real, self._log = real, log
+
+    def __getattr__(self, name):
+        return getattr(self._real, name)
+
+    def SourceLocation(self, *args, **kwargs):
+        try:
+            res = self._real.SourceLocation(*args, **kwargs)
+        except AssertionError:
+            self._log.append(("new", args, kwargs, "assert"))
+            raise
+        self._log.append(("new", args, kwargs, res))
+        return res
+
+    def merge_source_locations(self, *nodes):
+        locs = [getattr(n, "source_location", None) for n in nodes]
+        try:
+            res = self._real.merge_source_locations(*nodes)
+        except AssertionError:
+            self._log.append(("merge", locs, {}, "assert"))
+            raise
+        self._log.append(("merge", locs, {}, res))
+        return res
+
+
+def _ir_locations(node, path="module", out=None, parent=None):
+    """(path, location, location of the nearest enclosing node that has one) of every node of a
+    module IR that carries a source location."""
+    from compiler.util import ir_data, ir_data_utils
+    if out is None:
+        out = []
+    if not isinstance(node, ir_data.Message):
+        return out
+    loc = getattr(ir_data_utils.reader(node), "source_location", None) if hasattr(node, "source_location") else None
+    if isinstance(node, ir_data.Import) and not ir_data_utils.reader(node).file_name.text:
+        # the prelude import module_ir synthesizes: a zero-width location at the first import / doc /
+        # attribute / type, or (1, 1) in a module that has none of them, while the module node then
+        # spans only the end-of-line tokens (" " → module at 1:2, import at 1:1).  Not something the
+        # user wrote; no containment required of it.
+        parent = None
+    if loc is not None:
+        out.append((path + ":" + type(node).__name__, loc, parent))
+    if loc:
+        parent = loc
+    for spec, value in ir_data_utils.get_set_fields(node):
+        if spec.name != "source_location" and spec.is_dataclass:
+            if spec.is_sequence:
+                for i, v in enumerate(value):
+                    _ir_locations(v, "%s.%s[%d]" % (path, spec.name, i), out, parent)
+            else:
+                _ir_locations(value, path + "." + spec.name, out, parent)
+    return out
+
+
+def tie_module_ir(chk, r, cases, n_files, n_ops):
+    """SPAN tie + IR-location oracle.  For explored inputs that tokenize and parse: build the
+    module IR with the real `module_ir.build_ir` while its `parser_types` is the recording
+    stand-in.  (a) every `SourceLocation(start, end)` module_ir constructs: model `mkLoc` vs the
+    real constructor; spec: both arguments are boundaries of tokens of this file (or the
+    `(1, 1)` of an empty module / the falsy default) — the hypothesis of
+    `C16_module_ir_locations` — and the result lies inside the file; (b) its hand-made
+    `merge_source_locations` calls go to the MERGE op; (c) every location of every node of the
+    finished IR lies inside the file, start <= end, both ends are token boundaries, and the
+    location lies within the location of the enclosing node (unless `is_disjoint_from_parent`)."""
+    from harness.corr import C16 as base
+    from compiler.front_end import tokenizer, parser, module_ir
+    t = base.Tie(chk, "SPAN/MODULE_IR")
+    stats = {"files": 0, "constructor_calls": 0, "merge_calls": 0, "ir_nodes_with_location": 0, "shapes": {}}
+    bad_nodes = 0
+    budget = n_ops
+    seen_ops = set()
+    for c in cases:
+        if stats["files"] >= n_files:
+            break
+        text = c["files"].get(c["main"])
+        if not text:
+            continue
+        try:
+            toks, errs = tokenizer.tokenize(text, c["main"])
+            if errs or not toks:
+                continue
+            pr = parser.parse_module(toks)
+            if pr.error:
+                continue
+        except Exception:  # noqa: BLE001
+            continue
+        lines = text.splitlines()
+        bounds = {(1, 1)}
+        starts, ends = set(), set()
+        for tok in toks:
+            sl = tok.source_location
+            bounds.add((sl.start.line, sl.start.column))
+            bounds.add((sl.end.line, sl.end.column))
+            starts.add((sl.start.line, sl.start.column))
+            ends.add((sl.end.line, sl.end.column))
+        log = []
+        real_pt = module_ir.parser_types
+        module_ir.parser_types = _RecordingParserTypes(real_pt, log)
+        try:
+            ir = module_ir.build_ir(pr.parse_tree)
+        except Exception:  # noqa: BLE001  (a crash here is the exploration's business)
+            ir = None
+        finally:
+            module_ir.parser_types = real_pt
+        stats["files"] += 1
+        for kind, args, kwargs, res in log:
+            if kind == "new":
+                stats["constructor_calls"] += 1
+                extra = set(kwargs) - {"start", "end"}
+                a = list(args)
+                start = kwargs.get("start", a[0] if a else None)
+                end = kwargs.get("end", a[1] if len(a) > 1 else None)
+                if start is None and end is None and not extra:
+                    continue            # SourceLocation(): the falsy default
+                if extra or start is None or end is None:
+                    stats["shapes"]["other-kwargs"] = stats["shapes"].get("other-kwargs", 0) + 1
+                    continue
+                sp, ep = tuple(start), tuple(end)
+                shape = ("start" if sp in starts else "end" if sp in ends else "?") + "→" + \
+                        ("end" if ep in ends else "start" if ep in starts else "?")
+                stats["shapes"][shape] = stats["shapes"].get(shape, 0) + 1
+                want = "assert" if res == "assert" else "loc " + base.enc_loc(res)
+                # spec: the arguments are token boundaries of this file, in order, and the result lies in the file
+                spec_ok = sp in bounds and ep in bounds and res != "assert" and \
+                    base.position_problem(res.start, lines) is None and base.position_problem(res.end, lines) is None
+                op = "SPAN %d %d %d %d" % (sp[0], sp[1], ep[0], ep[1])
+                if spec_ok and op in seen_ops:
+                    continue
+                seen_ops.add(op)
+                if budget > 0 or not spec_ok:
+                    budget -= 1
+                    t.add(op, want, {"input": text[:3000], "call": "SourceLocation(%r, %r)" % (sp, ep)}, spec_ok)
+            else:
+                stats["merge_calls"] += 1
+                locs = [x for x in args if x is not None]
+                if not locs:
+                    continue
+                want = "assert" if res == "assert" else ("none" if res is None else "loc " + base.enc_loc(res))
+                spec_ok = res != "assert" and (res is None or (
+                    base.position_problem(res.start, lines) is None and base.position_problem(res.end, lines) is None))
+                op = "MERGE " + "/".join(base.enc_loc(x) for x in locs)
+                if spec_ok and op in seen_ops:
+                    continue
+                seen_ops.add(op)
+                if budget > 0 or not spec_ok:
+                    budget -= 1
+                    t.add(op, want, {"input": text[:3000], "call": "merge_source_locations(%s)" % ", ".join(str(x) for x in locs)}, spec_ok)
+        if ir is not None:
+            for path, loc, parent in _ir_locations(ir):
+                if not loc:
+                    continue
+                stats["ir_nodes_with_location"] += 1
+                chk.count()
+                problem = base.position_problem(loc.start, lines) or base.position_problem(loc.end, lines)
+                if problem is None and not loc.start <= loc.end:
+                    problem = "start after end"
+                if problem is None and ((loc.start.line, loc.start.column) not in bounds or
+                                        (loc.end.line, loc.end.column) not in bounds):
+                    problem = "an end of the location is not a token boundary"
+                # parser_types.SourceLocation: a node lies within its parent unless it says otherwise
+                if problem is None and parent and not loc.is_disjoint_from_parent and \
+                        not (parent.start <= loc.start and loc.end <= parent.end):
+                    problem = "not inside the enclosing node's location %s" % (parent,)
+                if problem is not None:
+                    bad_nodes += 1
+                    if bad_nodes <= 3:
+                        chk.violation("input", {"input": text[:3000], "main": c["main"], "node": path, "location": str(loc),
+                                                "observed": "IR node %s has location %s: %s" % (path, loc, problem),
+                                                "expected": "every location module_ir attaches to an IR node lies inside the "
+                                                            "file and runs from a token boundary to a token boundary",
+                                                "theorem_or_correspondence": "C16_module_ir_locations (hypotheses on real IR)"},
+                                      key="ir-location:" + problem.split(" outside")[0].split(" location ")[0][:40])
+    for k, v in stats["shapes"].items():
+        chk.nontrivial("span-shape:" + k)
+    stats["ir_nodes_with_bad_location"] = bad_nodes
+    chk.extra["module_ir_locations"] = stats
+    return t.flush() + bad_nodes
 
 
 # ---- file-system faults for the executables in subprocesses
